@@ -299,12 +299,12 @@ func (n *node[T]) add(value T, compare func(a, b T) int) *node[T] {
 
 func (n *node[T]) rebalance() *node[T] {
 	if n.balance() == balanceRightHeavy {
-		if n.right != nil && n.right.balance() == balanceLeftHeavy {
+		if n.right != nil && n.right.leftHeight() > n.right.rightHeight() {
 			return n.rotateLeftRight()
 		}
 		return n.rotateLeft()
 	} else if n.balance() == balanceLeftHeavy {
-		if n.left != nil && n.left.balance() == balanceRightHeavy {
+		if n.left != nil && n.left.rightHeight() > n.left.leftHeight() {
 			return n.rotateRightLeft()
 		}
 		return n.rotateRight()
